@@ -6,6 +6,8 @@ import c02
 
 CONFIGS = ['prod']
 EXPLANATION = (
+    "SEM (primary): the registry's add / remove / lookup summarised per (service, key) over 12 abstract pre-states; one request through the connection hand"
+    'ler interpreted against a registry that does / does not hold the handler. Structural fallback / remaining clauses: '
     'Decided clauses: G1 removing a service removes exactly that service\'s handler keys (retain closure returns false iff the key is in '
     'the removed service\'s key set, the set being what the service table held for the removed name; or a per-key remove loop); '
     'G2 adding a service records every handler key under the service name and extends the handler map on every path; '
